@@ -60,7 +60,7 @@ def conc_engine(run, tier, seed):
                 run.violations.append({"kind": "build", "what": "concurrency harness does not build against /repo: " + (p.stdout or b"").decode()[-300:],
                                        "case": None, "op": None, "case_text": "", "expected": None, "actual": None, "step": False})
                 return
-    args = [os.path.join(out, "hc"), "-outdir", os.path.join(out, "logs"), "-seed", str(seed), "-expect-d29=false", "-expect-d43=false", "-expect-d38=true"]
+    args = [os.path.join(out, "hc"), "-outdir", os.path.join(out, "logs"), "-seed", str(seed), "-expect-d29=false", "-expect-d43=false", "-expect-d38=true", "-stall", "30s", "-deadline", "1s", "-par", "32"]
     if not race:
         args += ["-norace-reason", "go build -race failed in this environment"]
     if tier == "thorough":
@@ -198,33 +198,35 @@ def span_engine(run, tier, seed):
 
 PROPS = {
     "C01": {"tags": [2], "ppref": ("C01",), "batches": [
-        B("hostile", 500, 20000, tags=[]), B("mixed", 300, 8000, tags=[]), B("hostile", 150, 4000, modes="1", tags=[])]},
+        B("hostile", 500, 3000, tags=[]), B("mixed", 300, 1800, tags=[]), B("hostile", 150, 900, modes="1", tags=[])]},
     "C02": {"tags": SCREEN, "ppref": ("C02",), "batches": [
-        B("mixed", 500, 12000), B("hostile", 300, 8000, tags=[2]), B("stepall", 200, 4000, step=True)], "extra": [span_engine]},
-    "C03": {"tags": SCREEN, "ppref": ("C03",), "batches": [
-        B("c03", 600, 15000, step=True, kinds_wanted=[1])]},
+        B("mixed", 150, 900, modes="1"),
+        B("mixed", 500, 3000), B("hostile", 300, 1800, tags=[2]), B("stepall", 200, 1200, step=True)], "extra": [span_engine]},
+    "C03": {"tags": SCREEN, "ppref": ("C03", "C02"), "batches": [
+        B("c03", 150, 900, step=True, kinds_wanted=[1], modes="1"),
+        B("c03", 400, 2400, step=True, kinds_wanted=[1])]},
     "C04": {"tags": [2, 3, 7], "ppref": ("C04",), "batches": [
-        B("c04", 600, 15000, step=True, kinds_wanted=[2, 3])]},
+        B("c04", 400, 2400, step=True, kinds_wanted=[2, 3])]},
     "C05": {"tags": SCREEN, "ppref": ("C05",), "batches": [
-        B("c05", 600, 15000, step=True, kinds_wanted=[4])]},
+        B("c05", 400, 2400, step=True, kinds_wanted=[4])]},
     "C06": {"tags": SCREEN, "ppref": ("C06",), "batches": [
-        B("c06", 600, 15000, step=True, kinds_wanted=[5, 14, 2])]},
+        B("c06", 400, 2400, step=True, kinds_wanted=[5, 14, 2])]},
     "C07": {"tags": [2, 3, 7], "ppref": ("C07",), "batches": [
-        B("c07", 600, 15000, step=True, kinds_wanted=[6, 1, 4, 5])]},
-    "C08": {"tags": ALL, "ppref": ("C08",), "batches": [B("c08", 400, 10000)]},
+        B("c07", 400, 2400, step=True, kinds_wanted=[6, 1, 4, 5])]},
+    "C08": {"tags": ALL, "ppref": ("C08",), "batches": [B("c08", 400, 2400)]},
     "C09": {"tags": ALL, "ppref": ("C09",), "batches": [
-        B("c09", 600, 15000, step=True, kinds_wanted=[10, 13])]},
-    "C10": {"tags": [7, 8], "ppref": ("C10",), "batches": [B("stepall", 400, 10000, step=True), B("mixed", 200, 5000)]},
-    "C11": {"tags": [], "ppref": ("C11",), "batches": [B("mixed", 400, 10000, tags=[]), B("c07", 300, 6000, tags=[])], "extra": [tty_engine]},
+        B("c09", 400, 2400, step=True, kinds_wanted=[10, 13])]},
+    "C10": {"tags": [7, 8], "ppref": ("C10",), "batches": [B("stepall", 400, 2400, step=True), B("mixed", 200, 1200)]},
+    "C11": {"tags": [], "ppref": ("C11",), "batches": [B("mixed", 400, 2400, tags=[]), B("c07", 300, 1800, tags=[])], "extra": [tty_engine]},
     "C12": {"tags": [], "ppref": ("C12",), "batches": [], "extra": [keys_engine]},
     "C13": {"tags": [], "ppref": ("C13",), "batches": [], "extra": [mouse_engine]},
-    "C14": {"tags": [4], "ppref": ("C14",), "batches": [B("c14", 600, 15000), B("mixed", 200, 5000)]},
-    "C15": {"tags": [], "ppref": ("C15",), "batches": [B("mixed", 150, 2000, tags=[])], "extra": [conc_engine]},
+    "C14": {"tags": [4], "ppref": ("C14",), "batches": [B("c14", 400, 2400), B("mixed", 200, 1200)]},
+    "C15": {"tags": [], "ppref": ("C15",), "batches": [B("mixed", 150, 900, tags=[])], "extra": [conc_engine]},
     "C16": {"tags": [], "ppref": ("C16",), "batches": [], "extra": [io_engine]},
     "C17": {"tags": ALL, "ppref": ("C17",), "batches": [
-        B("c17", 600, 15000, step=True, kinds_wanted=[7, 15])]},
+        B("c17", 400, 2400, step=True, kinds_wanted=[7, 15, 9])]},
     "C18": {"tags": SCREEN + [7], "ppref": ("C18",), "batches": [
-        B("c18", 600, 15000, step=True, kinds_wanted=[11]), B("c18", 150, 4000)]},
-    "C19": {"tags": [4, 5], "ppref": ("C19",), "batches": [B("c19", 400, 10000)]},
-    "C20": {"tags": SCREEN, "ppref": ("C20",), "batches": [B("mixed", 400, 10000), B("stepall", 200, 6000, step=True)]},
+        B("c18", 400, 2400, step=True, kinds_wanted=[11]), B("c18", 150, 900)]},
+    "C19": {"tags": [4, 5], "ppref": ("C19",), "batches": [B("c19", 400, 2400)]},
+    "C20": {"tags": SCREEN, "ppref": ("C20",), "batches": [B("mixed", 400, 2400), B("stepall", 200, 1200, step=True)]},
 }
